@@ -105,6 +105,7 @@ fn dict_shuffled(values: &[ScalarValue], canon: &DataType, target: &DataType, ga
             }
             Arc::new(DictionaryArray::<Int8Type>::try_new(Int8Array::from_iter(keys.iter().map(|k| k.map(|x| x as i8))), dvals).map_err(|e| e.to_string())?)
         }
+        DataType::Int16 => Arc::new(DictionaryArray::<Int16Type>::try_new(Int16Array::from_iter(keys.iter().map(|k| k.map(|x| x as i16))), dvals).map_err(|e| e.to_string())?),
         DataType::UInt8 => Arc::new(DictionaryArray::<UInt8Type>::try_new(UInt8Array::from_iter(keys.iter().map(|k| k.map(|x| x as u8))), dvals).map_err(|e| e.to_string())?),
         other => return Err(format!("unsupported key type {other}")),
     };
